@@ -473,4 +473,77 @@ theorem minimax_monotone (sc : Condorcet.Scorer) (v v' : Pairwise) (w : Cand) (h
   exact wlt_of_wle_of_wlt_of_wle (worst_w_le sc hwf hwf' hp hp' hr) (h.2 c (hc c hcc) hcw)
     (worst_y_ge sc hwf hwf' hp hp' hr hcw)
 
+/-! ## non-vacuity: concrete inputs that meet the hypotheses of the conditional theorems -/
+
+section examples
+open VL.Condorcet
+
+/-- three candidates, truncated ballots, a shared rank -/
+def exProfile : RProfile :=
+  [([.one 0, .one 1, .one 2], 3), ([.one 1, .one 0, .one 2], 2), ([.one 2, .one 0, .one 1], 1),
+   ([.one 1, .shared [0, 2]], 1), ([.one 2, .one 1], 1)]
+
+example : ∀ x ∈ dkeys exProfile, BallotOK x := by decide +kernel
+example : ScorerOK (.borda 1) ∧ ScorerOK .dowdall ∧ ScorerOK (.geometric 2) ∧ ScorerOK .modifiedBorda ∧
+    ScorerOK (.fixedTop 2) := by simp [ScorerOK]
+example : evalPositional (.borda 1) exProfile = .ok [Slot.cand 0] := by decide +kernel
+example : evalPositional .modifiedBorda exProfile = .ok [Slot.cand 0] := by decide +kernel
+-- the shared-rank ballot (1, {0,2}): lifting 0 to the top gives (0, 1, 2), one place more
+example : liftOK 0 0 [.one 1, .shared [0, 2]] = true ∧ lift 0 0 [.one 1, .shared [0, 2]] = [.one 0, .one 1, .one 2] := by
+  decide +kernel
+example : evalPositional .modifiedBorda (replaceUnit exProfile [.one 1, .shared [0, 2]] (lift 0 0 [.one 1, .shared [0, 2]]))
+    = .ok [Slot.cand 0] := by decide +kernel
+-- the truncated ballot (2, 1): ranking the unranked winner
+example : liftOK 0 1 [.one 2, .one 1] = true ∧ lift 0 1 [.one 2, .one 1] = [.one 2, .one 0, .one 1] := by decide +kernel
+
+/-- Bucklin: decided in the second round -/
+def exBucklin : RProfile := [([.one 1, .one 0], 2), ([.one 2, .one 0], 2), ([.one 0, .one 1], 1)]
+example : evalBucklin exBucklin = .ok [Slot.cand 0] ∧ (∀ bw ∈ exBucklin, 0 ≤ bw.2) := by decide +kernel
+example : evalBucklin (addTo exBucklin [.one 0] 1) = .ok [Slot.cand 0] := by decide +kernel
+
+def exApproval : AProfile := [([0, 1], 2), ([1, 2], 1), ([0], 1), ([2], 1)]
+example : evalApproval exApproval = .ok [Slot.cand 0] ∧ (0 : Cand) ∉ ([1, 2] : Approval) := by decide +kernel
+
+def exScore : SProfile := [([(0, 3), (1, 1)], 2), ([(1, 3), (2, 2)], 1)]
+example : evalScoreSum exScore = [Slot.cand 0] ∧ ScoreBallotOK [(1, 3), (2, 2)] := by
+  unfold ScoreBallotOK; decide +kernel
+
+example : evalPlurality [(0, 5), (1, 3), (2, 4)] = [Slot.cand 0] := by decide +kernel
+
+/-- the pairwise matrix of the witness of fix 20ca103 and of its perturbation (c = 0 lifted to the top of (a,d,b,c)) -/
+def exBase : RProfile :=
+  [([.one 0, .one 1], 3), ([.one 2, .one 3, .one 1, .one 0], 1), ([.one 0, .one 1, .one 2, .one 3], 1), ([.one 0], 2)]
+def exPert : RProfile := replaceUnit exBase [.one 2, .one 3, .one 1, .one 0] (lift 0 0 [.one 2, .one 3, .one 1, .one 0])
+
+example : Condorcet.WF (pairwiseOf exBase) ∧ Condorcet.WF (pairwiseOf exPert) ∧ Positive (pairwiseOf exBase) ∧
+    Positive (pairwiseOf exPert) := by decide +kernel
+example : minimax .winningVotes (pairwiseOf exBase) 1 = [Slot.cand 0] ∧ copeland false (pairwiseOf exBase) 1 = [Slot.cand 0] := by
+  decide +kernel
+example : minimax .winningVotes (pairwiseOf exPert) 1 = [Slot.cand 0] := by decide +kernel
+example : (candidates (pairwiseOf exPert)).all (fun c => (candidates (pairwiseOf exBase)).contains c) = true := by
+  decide +kernel
+-- `Raised` on this pair, checked entry by entry over the four candidates
+example : ([0, 1, 2, 3] : List Cand).all (fun y =>
+    decide (pget (pairwiseOf exBase) (0, y) ≤ pget (pairwiseOf exPert) (0, y)) &&
+    decide (pget (pairwiseOf exPert) (y, 0) ≤ pget (pairwiseOf exBase) (y, 0)) &&
+    ([1, 2, 3] : List Cand).all (fun x => y = 0 || decide (pget (pairwiseOf exPert) (x, y) = pget (pairwiseOf exBase) (x, y)))) = true := by
+  decide +kernel
+
+/-- vote monotonicity: party 2 goes from 1 to 4 votes -/
+example : MoreVotes exCfg exCfg' 2 := by
+  refine ⟨rfl, rfl, rfl, rfl, rfl, ?_, ?_⟩
+  · decide +kernel
+  · intro e he
+    have : ∀ votes : Votes, e ≠ 2 → getD ((2, (1 : Rat)) :: votes) e 0 = getD ((2, (4 : Rat)) :: votes) e 0 := by
+      intro votes h; simp [getD, lookup, List.find?, fun h' : 2 = e => h h'.symm]
+    unfold HACfg.vote exCfg' exCfg
+    simp only [getD, lookup, List.find?]
+    by_cases h0 : (0 : Cand) = e
+    · simp [h0]
+    · by_cases h1 : (1 : Cand) = e
+      · simp [h0, h1]
+      · simp [h0, h1, fun h' : 2 = e => he h'.symm]
+
+end examples
+
 end VL.C17
